@@ -983,7 +983,7 @@ func (w *Walker) callInternalFull(call *ast.CallExpr, fn *FuncInfo, st *State, n
 			out = append(out, callRes{s, w.pureResult(call, fn, recvs[i], args[i], s, nres)})
 			continue
 		}
-		if w.inlineHelpers && (w.A.inlinable(fn) || w.viaValue && w.A.inlinableValue(fn)) {
+		if w.inlineHelpers && (w.A.inlinable(fn) || w.viaValue && w.A.inlinableValue(fn) || w.A.inlinableShared(fn)) {
 			if rs, ok := w.inlineCall(fn, recvs[i], args[i], s, nres, false); ok {
 				out = append(out, rs...)
 				continue
